@@ -473,7 +473,8 @@ PANIC_PATTERNS = [
     ("index", r"[\w\)\]]\[[^\]]+\]"),
     ("arith", r"[\w\)\]]\s(\+|-|\*)\s[\w\(]"),
     ("arith_assign", r"(\+=|-=|\*=|/=|%=|<<=|>>=)"),
-    ("shift", r"[\w\)\]]\s*(<<|>>)\s*[\w\(]"),
+    # binary shifts as rustfmt writes them (spaces around the operator): `TryFrom<u128>>(value` is no shift
+    ("shift", r"[\w\)\]]\s(<<|>>)\s[\w\(]"),
     # Vec::remove(index) can panic; a map's remove(&key) cannot
     ("slice_fn", r"\.(split_at|copy_from_slice|swap|swap_remove|drain|split_off|truncate|insert\s*\(\s*\d)\b|\.remove\s*\(\s*(?!&)"),
     ("from_utf8_unwrap", r"from_utf8_unchecked|get_unchecked"),
